@@ -61,7 +61,7 @@ def replay_one(item):
                  'base': 'none', 'basekind': 'none'}
             if v is not None:
                 rep = iso9660.decode(after)
-                v['dec'] = dec_obs(rep, _TAB)
+                v['dec'] = dec_obs(rep, _TAB, after)
                 if zlib.crc32(str(tid).encode()) % 2 == 0:
                     b['item'] = images.image_item('%s@%d' % (tid, len(ev)), after, [], report=rep,
                                                   do_remaster=False, pad=0)
@@ -80,7 +80,7 @@ def replay_one(item):
             m['o'] = v
             if v is not None and _OPTS.get('decode', True):
                 rep = iso9660.decode(data)
-                v['dec'] = dec_obs(rep, _TAB)
+                v['dec'] = dec_obs(rep, _TAB, data)
                 if fq is not None:
                     v['dec']['fq'] = fq
                 every = _OPTS.get('image_every', 0)
@@ -107,7 +107,7 @@ def replay_one(item):
     return t
 
 
-def dec_obs(rep, tab):
+def dec_obs(rep, tab, data=None):
     """what the independent ISO9660/Joliet decoder recovers, in model terms (name ids, blob ids)"""
     out = {'on': True, 'iso': [], 'jol': [], 'fq': [{'ns': 'none', 'p': [], 'x': 0, 'n': 0}]}
     for ns in ('iso', 'jol'):
@@ -125,8 +125,9 @@ def dec_obs(rep, tab):
                                 'n': d['len'] if isinstance(d['len'], int) else -1})
         for f in rep['files'].get(ns, []):
             b = tab.sha.get(f['sha'], '?' + f['sha'][:8])
-            if b.startswith('?') and f['size'] == 2048:
-                b = 'cat?'
+            if b.startswith('?') and data is not None and isinstance(f['extent'], int) and isinstance(f['size'], int) \
+                    and f['size'] <= (1 << 22) and not f.get('parts'):
+                b = tab.classify(data[f['extent'] * 2048:f['extent'] * 2048 + f['size']])
             out[ns].append({'p': ids(f['path']), 'k': 'file', 'b': b,
                             'x': f['extent'] if isinstance(f['extent'], int) else -1,
                             'n': f['size'] if isinstance(f['size'], int) else -1})
@@ -205,7 +206,8 @@ def replay_all(tabname, behaviours, opts=None, procs=16):
 
 
 EMPTY_OBS = {'cfg': {'level': 1, 'joliet': 0, 'rr': '', 'udf': False, 'xa': False},
-             'iso': [], 'rrv': [], 'jol': [], 'udf': [], 'npvd': 1, 'err': ['no_observation']}
+             'iso': [], 'rrv': [], 'jol': [], 'udf': [], 'npvd': 1, 'err': ['no_observation'],
+             'elt': {'on': False, 'entries': []}}
 
 
 def build_input(tab, traces):
@@ -219,6 +221,8 @@ def build_input(tab, traces):
         if 'peek_error' in o:
             o = dict(EMPTY_OBS, err=['peek:' + o['peek_error']])
         slim = {k: o[k] for k in ('cfg', 'iso', 'rrv', 'jol', 'udf', 'npvd', 'err')}
+        elt = o.get('elt') or {'on': False, 'entries': []}
+        slim['elt'] = {'on': elt['on'], 'entries': elt['entries']}
         slim['dec'] = o.get('dec', NO_DEC)
         key = json.dumps(slim, sort_keys=True)
         if key not in obs_index:
